@@ -856,7 +856,7 @@ func checkC18(c *Ctx, r *Report) {
 			if !isSt {
 				return
 			}
-			if fv, _, is := fieldOf(st.Addr); is && fv.Name() == "comittedValue" {
+			if fv, _, is := fieldOf(st.Addr); is && fname(fv) == "comittedValue" {
 				if derivesFrom(st.Val, func(v ssa.Value) bool {
 					_, p := fieldPath(v)
 					return len(p) > 0 && p[len(p)-1] == "previousValue"
@@ -874,7 +874,7 @@ func checkC18(c *Ctx, r *Report) {
 			if !isSt {
 				return
 			}
-			if fv, base, is := fieldOf(st.Addr); is && fv.Name() == "previousValue" && resolveVal(base) == ssa.Value(f.Params[0]) {
+			if fv, base, is := fieldOf(st.Addr); is && fname(fv) == "previousValue" && resolveVal(base) == ssa.Value(f.Params[0]) {
 				ok = true
 			}
 		})
@@ -924,7 +924,7 @@ func checkC18(c *Ctx, r *Report) {
 			root, _ := fieldPath(fa)
 			if a, isA := root.(*ssa.Alloc); isA {
 				if sts := storesTo(a); len(sts) == 1 && sts[0].Val == ssa.Value(f.Params[0]) {
-					if fa.X.Type().Underlying().(*types.Pointer).Elem().Underlying().(*types.Struct).Field(fa.Field).Name() == "previousValue" && isNoneValue(st.Val) {
+					if fname(fa.X.Type().Underlying().(*types.Pointer).Elem().Underlying().(*types.Struct).Field(fa.Field)) == "previousValue" && isNoneValue(st.Val) {
 						confirmOblig(false, fnKey(f)+": assignment to a field of a value receiver", c.InstrPos(st), "", "the method has a value receiver, so clearing previousValue changes a copy and is lost")
 						return
 					}
@@ -941,7 +941,7 @@ func checkC18(c *Ctx, r *Report) {
 			if !isSt {
 				return
 			}
-			if fv, _, is := fieldOf(st.Addr); is && fv.Name() == "previousValue" {
+			if fv, _, is := fieldOf(st.Addr); is && fname(fv) == "previousValue" {
 				if derivesFrom(st.Val, func(v ssa.Value) bool {
 					_, p := fieldPath(v)
 					return len(p) > 0 && p[len(p)-1] == "comittedValue"
@@ -1584,7 +1584,7 @@ func checkC19(c *Ctx, r *Report) {
 		cleared := false
 		eachInstr(f, func(in ssa.Instruction) {
 			if st, ok := in.(*ssa.Store); ok {
-				if fv, _, is := fieldOf(st.Addr); is && fv.Name() == "unsubs" && isNilConst(st.Val) {
+				if fv, _, is := fieldOf(st.Addr); is && fname(fv) == "unsubs" && isNilConst(st.Val) {
 					cleared = true
 				}
 			}
@@ -1745,7 +1745,7 @@ func lossyChannelsCarryNoState(c *Ctx, r *Report, li *LockInfo) {
 							return
 						}
 						fv, _, is := fieldOf(st2.Addr)
-						if !is || fv.Name() != p[len(p)-1] {
+						if !is || fname(fv) != p[len(p)-1] {
 							return
 						}
 						mk, ok := unconv(st2.Val).(*ssa.MakeChan)
